@@ -146,6 +146,19 @@ Definition token_eqb (a b : token) : bool :=
   String.eqb (t_alg a) (t_alg b) && String.eqb (t_kid a) (t_kid b) && String.eqb (t_typ a) (t_typ b)
   && keymat_eqb (t_key a) (t_key b) && cmap_eqb (t_claims a) (t_claims b).
 
+(** a rule-level variant of a catalogue finalizer: what the rule gives overlays the
+    catalogue configuration, member by member; only ttl (> 1s) and claims can be given *)
+Definition overlay {A} (own proto : option A) : option A := match own with Some x => Some x | None => proto end.
+
+Definition spec_variant (c : config) (o : override) : option config :=
+  if o_unknown o || match o_ttl o with Some t => negb (1000000000 <? t)%Z | None => false end then None
+  else Some {| c_keyid := c_keyid c; c_name := c_name c; c_ttl := overlay (o_ttl o) (c_ttl c);
+               c_claims := overlay (o_claims o) (c_claims c); c_cache := c_cache c;
+               c_before := c_before c; c_after := c_after c |}.
+
+Definition spec_target (c : config) (ov : option override) : option config :=
+  match ov with None => Some c | Some o => spec_variant c o end.
+
 (** may tokens be reused from the cache at all *)
 Definition reuse_allowed (c : config) : bool := c_cache c && (5 * 1000000000 <? spec_ttl c)%Z.
 
@@ -169,8 +182,12 @@ Fixpoint obs_ok (c : config) (cur : raw_entry * list raw_entry) (seen : list tok
          (ops : list op) (obs : list oobs) : bool :=
   match ops, obs with
   | [], [] => true
-  | OExec sub now :: ops', XToken t v :: obs' =>
-      token_ok c cur seen sub now t v && obs_ok c cur (t :: seen) ops' obs'
+  | OExec ov sub now :: ops', x :: obs' =>
+      match spec_target c ov, x with
+      | Some ce, XToken t v => token_ok ce cur seen sub now t v && obs_ok c cur (t :: seen) ops' obs'
+      | None, XErr => obs_ok c cur seen ops' obs'       (* an invalid override yields no finalizer *)
+      | _, _ => false
+      end
   | OReload f :: ops', x :: obs' =>
       match spec_accept (c_keyid c) f, x with
       | Some cur', XDone => obs_ok c cur' seen ops' obs'
@@ -214,9 +231,9 @@ Definition clash (a b : raw_entry) : bool :=
   String.eqb (kid_of a) (kid_of b) && option_eqb String.eqb (spec_alg (r_key a)) (spec_alg (r_key b))
   && negb (keyref_eqb (r_key a) (r_key b)).
 
-(** C16-F1: token reuse is on and the run activates, at different times, two different
-    keys under one (key id, algorithm) *)
+(** C16-F1: a token cache is in use and the run activates, at different times, two
+    different keys under one (key id, algorithm) *)
 Definition guard_F1 (c : config) (f : pem_file) (ops : list op) : bool :=
-  reuse_allowed c &&
+  c_cache c &&
   let acts := accepted_of (c_keyid c) (f :: files_of ops) in
   existsb (fun a => existsb (clash a) acts) acts.
